@@ -1,4 +1,5 @@
 import GV.Proofs.Bits32
+import GV.Proofs.Div32
 import GV.Proofs.CaseMap
 import GV.Proofs.NoSyncRefine
 import GV.Proofs.FloatRound
@@ -7,10 +8,8 @@ import GV.Model.Atomic
 /-!
   C13 — JavaScript-backed standard-library overrides equal the Go originals.
 
-  math/bits   `mul32_correct`, `add32_correct` (all operands); `Div32`: `div32_panics`, `rem32_panics`, `div32_no_fuel`,
-              `div32_digit` (the Knuth-D quotient-digit estimate with its correction loop is exact, all digits);
-              the outcome relation `div32_full` (quo·y + rem = hi·2^32 + lo ∧ rem < y) is stated but NOT proved: the
-              normalisation-shift bookkeeping around the two digits is covered by the correspondence runs only
+  math/bits   `mul32_correct`, `add32_correct` (all operands); `div32_correct` / `div32_relation` / `rem32_correct` (all operands), `div32_panics`,
+              `rem32_panics`; `div32_digit` (Knuth-D digit estimate), `div32_no_fuel` (loop budget never exhausted)
   unicode     `to_eq_scan`: the override's binary search = the linear scan on EVERY sorted table, all runes, all cases
               (the real tables' sortedness: GV.Props.C13Env over the regenerated tables)
   sync/atomic `swap_spec`, `cas_spec`, `add_wraps`, `load_store_spec`; `value_store_eq`, `value_swap_eq`, `value_cas_eq`
@@ -72,15 +71,22 @@ theorem div32_digit (y1 y0 u1 u0 : Nat) (hy1 : 32768 ≤ y1) (hy1' : y1 < 65536)
   exact GV.Proofs.Bits32.corrLoop_digit loopFuel (u1 / y1) (u1 % y1) y1 y0 u1 u0 hy1 hy1' hy0 hu0 (by omega) hq hu1 hdm hup
     (by unfold loopFuel; omega)
 
-/-- the full outcome relation of `Div32` — stated, NOT proved: what is missing between `div32_digit` (proved, both digits)
-    and this statement is the normalisation bookkeeping (`y <<= s`, `hi<<s | lo>>(32-s)`, the final `>> s`); every run
-    compares the model with this relation computed directly (`bits sdiv32`) and with native Go on the generated operands -/
-def div32_full : Prop := ∀ hi lo y : Nat, hi < y → y < 4294967296 → lo < 4294967296 →
-  div32 hi lo y = .ok ((hi * 4294967296 + lo) / y) ((hi * 4294967296 + lo) % y)
+/-- `Div32(hi, lo, y)` with hi < y returns quotient and remainder of hi·2^32 + lo by y — for ALL uint32 operands:
+    the normalisation (`y <<= s`, `hi<<s | lo>>(32-s)`, `lo << s`), both Knuth-D digits with their correction loops, every
+    uint32 wrap-around of the code, and the final `>> s` -/
+theorem div32_correct (hi lo y : Nat) (hhi : hi < y) (hy : y < 4294967296) (hlo : lo < 4294967296) :
+    div32 hi lo y = .ok ((hi * 4294967296 + lo) / y) ((hi * 4294967296 + lo) % y) :=
+  GV.Proofs.Div32.div32_correct hi lo y hhi hy hlo
 
-/-- 8-bit-digit sanity instances of `div32_full` (a test, not a theorem about all operands) -/
-example : div32 1 0 2 = .ok 2147483648 0 ∧ div32 123456 4000000000 3000000000 = .ok 176747 2482494976 ∧
-    div32 4294967294 4294967295 4294967295 = .ok 4294967295 4294967294 := by decide
+/-- in the form of the property: quo·y + rem = hi·2^32 + lo ∧ rem < y -/
+theorem div32_relation (hi lo y : Nat) (hhi : hi < y) (hy : y < 4294967296) (hlo : lo < 4294967296) :
+    ∃ q r, div32 hi lo y = .ok q r ∧ q * y + r = hi * 4294967296 + lo ∧ r < y := by
+  refine ⟨_, _, div32_correct hi lo y hhi hy hlo, ?_, Nat.mod_lt _ (by omega)⟩
+  rw [Nat.mul_comm]; exact Nat.div_add_mod _ _
+
+/-- `Rem32(hi, lo, y)` = (hi·2^32 + lo) mod y for every y ≠ 0 and every hi -/
+theorem rem32_correct (hi lo y : Nat) (hy0 : y ≠ 0) (hy : y < 4294967296) (hlo : lo < 4294967296) :
+    rem32 hi lo y = .ok ((hi * 4294967296 + lo) % y) := GV.Proofs.Div32.rem32_correct hi lo y hy0 hy hlo
 
 /-! ### unicode case mapping -/
 
@@ -243,6 +249,26 @@ theorem trunc_eq (x : Nat) (hx : x < two64) : trunc x = truncGo x := GV.Proofs.F
 /-- `Modf` = upstream `Modf`, ALL bit patterns: integer part bit-exact (signed zeros included), NaN-ness, sign and
     zero-ness of the fraction (full strength since fixes/C13-math-modf.patch) -/
 theorem modf_eq (f : Nat) (h : f < two64) : modf f = modfGo f := GV.Proofs.FloatBits.modf_eq f h
+
+/-- `Ldexp` (|exp| < 1024: `frac * Math.pow(2, exp)`): wherever the model decides — ±0, ±Inf, NaN, or a normal operand
+    with a normal result, where the product is exact — upstream `ldexp` returns the same bit pattern -/
+theorem ldexp_agree (frac : Nat) (e : Int) (b : Nat) (h : ldexp frac e = some b) : ldexpGo frac e = some b :=
+  GV.Proofs.FloatBits.ldexp_agree frac e b h
+
+/-- special-case table of `Ldexp`: ±0 → ±0, ±Inf → ±Inf, NaN → NaN -/
+theorem ldexp_special (frac : Nat) (e : Int) (hr : -1024 < e ∧ e < 1024) :
+    (isZero frac = true → ldexp frac e = some frac) ∧ (isInf frac = true → ldexp frac e = some frac) ∧
+    (isNaN frac = true → ldexp frac e = some nanBits) := GV.Proofs.FloatBits.ldexp_special frac e hr
+
+/-- `Frexp` of a normal f (upstream bit manipulation through the overridden reinterpretations): exponent e(f)+1, fraction with
+    exponent field 1022, same sign and mantissa -/
+theorem frexp_normal (f : Nat) (hf : f < two64) (h1 : expo f ≠ 0) (h2 : expo f ≠ 2047) :
+    (frexp f).2 = (expo f : Int) - 1022 ∧ expo (frexp f).1 = 1022 ∧ sign (frexp f).1 = sign f ∧ mant (frexp f).1 = mant f :=
+  GV.Proofs.FloatBits.frexp_normal f hf h1 h2
+
+/-- `Ldexp(Frexp(f)) = f` for every normal f below 2^1023 -/
+theorem ldexp_frexp (f : Nat) (hf : f < two64) (h1 : expo f ≠ 0) (h2 : expo f < 2046) :
+    ldexp (frexp f).1 (frexp f).2 = some f := GV.Proofs.FloatBits.ldexp_frexp f hf h1 h2
 
 /-! #### repaired defects: the schemes before the repairs (`truncOld`, `modfOld`) -/
 
